@@ -440,6 +440,24 @@ def trial_record(ctx):
     ds = P.func('DistributionSampler.sample')
     di = P.func('DistributionSampler.__init__')
     res.saw(ds), res.saw(di)
+    seed_guard = [n for n in ast.walk(di.node) if isinstance(n, ast.If) and
+                  any(isinstance(c, ast.Call) and
+                      unparse(c.func) == 'np.random.seed'
+                      for b in n.body for c in ast.walk(b))]
+    guard_ok = bool(seed_guard) and all(
+        isinstance(n.test, ast.Compare) and len(n.test.ops) == 1 and
+        isinstance(n.test.ops[0], ast.IsNot) and
+        unparse(n.test.left) == 'seed' and
+        unparse(n.test.comparators[0]) == 'None' for n in seed_guard)
+    unguarded = any(isinstance(st, ast.Expr) and isinstance(
+        st.value, ast.Call) and unparse(st.value.func) == 'np.random.seed'
+        for st in di.node.body)
+    if not (guard_ok or unguarded):
+        res.fail(ctx.finding(
+            'TRIAL-RECORD', di, di.node,
+            'DistributionSampler seeds the generator only when the seed is '
+            'truthy: seed=0 is silently ignored and the run is not '
+            'reproducible', construct='DistributionSampler seed guard'))
     if find(ds, 'np.random.normal(**self.params)') and \
             find(ds, 'np.random.uniform(**self.params)') and \
             find(di, 'np.random.seed(seed)') and \
@@ -454,5 +472,11 @@ def trial_record(ctx):
     return res
 
 
-RULES = [trial_record, final_reset, reset_before_apply, reset_covers, one_sample,
+def c14_update(ctx):
+    """shared with C14: the value a perturbation records is the value
+    Variable.update writes to the lens"""
+    from .C14 import bounds_units as _r
+    return _r(ctx)
+
+RULES = [c14_update, trial_record, final_reset, reset_before_apply, reset_covers, one_sample,
          target_default]
